@@ -40,9 +40,15 @@ scratch = tempfile.mkdtemp(prefix="pygom_seed_", dir="/var/tmp")
 res = {}
 try:
     dst = os.path.join(scratch, "repo")
-    shutil.copytree("/repo", dst, ignore=shutil.ignore_patterns(".git", "docs", "notebooks"))
-    r = subprocess.run(["patch", "-p1", "-s", "-i", os.path.join(dst_dir, "patch.diff")], cwd=dst,
-                       stdout=subprocess.PIPE, stderr=subprocess.STDOUT, text=True)
+    subprocess.run(["git", "-C", "/repo", "worktree", "add", "--detach", dst, "HEAD"], check=True,
+                   stdout=subprocess.DEVNULL, stderr=subprocess.DEVNULL)
+    import glob
+    for so in glob.glob("/repo/src/pygom/model/_tau_leap*.so"):
+        shutil.copy(so, os.path.join(dst, "src", "pygom", "model"))
+    pf = os.path.join(dst_dir, "patch.diff")
+    r = subprocess.run(["git", "apply", pf], cwd=dst, stdout=subprocess.PIPE, stderr=subprocess.STDOUT, text=True)
+    if r.returncode:
+        r = subprocess.run(["git", "apply", "--3way", pf], cwd=dst, stdout=subprocess.PIPE, stderr=subprocess.STDOUT, text=True)
     res["patch_applies"] = r.returncode == 0
     if r.returncode:
         print("patch failed:", r.stdout)
@@ -82,7 +88,10 @@ try:
             print(r.stdout[-2000:])
     res["our_checks"] = checks
 finally:
+    subprocess.run(["git", "-C", "/repo", "worktree", "remove", "--force", os.path.join(scratch, "repo")],
+                   stdout=subprocess.DEVNULL, stderr=subprocess.DEVNULL)
     shutil.rmtree(scratch, ignore_errors=True)
+    subprocess.run(["git", "-C", "/repo", "worktree", "prune"], stdout=subprocess.DEVNULL, stderr=subprocess.DEVNULL)
 meta["confirmed"] = res
 meta["what_i_ran"] = ("tools/seedcheck.py: copy of /repo + patch.diff; demo.py on changed and unchanged tree; repository test suite on the "
                       "changed tree; ./check <prop> %s with VERIF_REPO=<copy>" % a.tier)
